@@ -275,3 +275,10 @@ def r6(ctx):
                f"{n} timeout paths leave reassembly state and connection flag untouched and write nothing" if bad is None else
                "a timeout path modifies the reassembly state / connection flag or writes a frame",
                ctx.index.loc(ctx.index.func("_core:WebSocket.recv_data_frame").node), {"path": path_text(bad)} if bad else None)
+
+
+@rule("R-C03-7", min_instances=3, title="recv_strict never asks the transport for more than the current field is missing (no read-ahead into a private buffer); slices are exact")
+def r7(ctx):
+    # shared with R-C02-5: over-reading is invisible to a blocking recv() but changes what a segmentation delivers when
+    from .c02 import r5 as exact_consumption
+    exact_consumption(ctx)
